@@ -358,7 +358,7 @@ def prove_split(eng, gt, hyps, pc_upto=None):
 
 
 def run_case(prop_id, name, body, kwargs, patches, *, timeout_ms=30000, max_paths=20000, n_validate=2, seed=0,
-             expect_tags=(), partial_ok=False, skip_sym=False):
+             expect_tags=(), partial_ok=False, skip_sym=False, algebraic=False):
     """Run one case in sym mode, then translator validation.  Returns a CaseResult (plain dict)."""
     t0 = time.time()
     res = CaseResult(case=name, kwargs={k: (v if isinstance(v, (int, float, str, bool, type(None))) else str(v)) for k, v in kwargs.items()},
@@ -366,6 +366,7 @@ def run_case(prop_id, name, body, kwargs, patches, *, timeout_ms=30000, max_path
                      solver_s=0.0, violations=[], inconclusive=[], samples=[], tags=[], stub_hits={}, validate={})
     eng = Engine(timeout_ms=timeout_ms, max_paths=max_paths)
     eng.partial_ok = partial_ok
+    eng.algebraic_sqrt = algebraic
     seen_goals = set()
     tags = set()
     try:
@@ -454,7 +455,7 @@ def run_case(prop_id, name, body, kwargs, patches, *, timeout_ms=30000, max_path
     res["feas_queries"] = eng.stats["feas_queries"]
     res["queries"] = eng.stats["queries"]
     # ---- translator validation: const (patched) vs float (unpatched) on random inputs
-    res["validate"] = validate_case(body, kwargs, patches, n=n_validate, seed=seed, timeout_ms=timeout_ms)
+    res["validate"] = validate_case(body, kwargs, patches, n=n_validate, seed=seed, timeout_ms=timeout_ms, algebraic=algebraic)
     # vacuity guard: some path must be witnessed satisfiable by the solver, or reached by a concrete (const-mode) execution
     if res["reachable"] == 0 and res["validate"].get("const_reached", 0) == 0 and not res["inconclusive"]:
         res["inconclusive"].append(dict(label="vacuity", why="no path reaching the goals was witnessed feasible (solver sat or concrete run)"))
@@ -507,7 +508,7 @@ def _float_run(body, kwargs, seed):
     return ("ok", fm.values, {k: bool(split_goal(g)[0]) for k, g in goals.items()}, obs, exc)
 
 
-def validate_case(body, kwargs, patches, n=2, seed=0, timeout_ms=30000):
+def validate_case(body, kwargs, patches, n=2, seed=0, timeout_ms=30000, algebraic=False):
     """translator validation: the same body on the same random inputs, (a) real code / real numpy / floats,
     (b) patched code on exact rational constants.  Goals must hold in both, observables must agree."""
     rng = np.random.default_rng(seed + 12345)
@@ -534,6 +535,7 @@ def validate_case(body, kwargs, patches, n=2, seed=0, timeout_ms=30000):
         # const run (patched)
         eng = Engine(timeout_ms=timeout_ms, max_paths=500)
         eng.const_mode = True
+        eng.algebraic_sqrt = algebraic
         cexc = None
         cobs = {}
         try:
